@@ -501,12 +501,12 @@ def parse_term(x, tb, sig, env=None, want=None, named=None, inline_defs=False):
                 if env[nm] != s:
                     raise SortError("qualified variable %s has sort %s, not %s" % (nm, env[nm], s))
                 return tb.var(nm, s)
+            if nm in sig.funs and not sig.funs[nm][0] and sig.funs[nm][1] == s:
+                return tb.var(nm, s)
             if nm.startswith("@") or "!val!" in nm:
                 if s in (BOOL, INT, REAL) or s.startswith("(Array"):
                     raise SortError("abstract value %s of interpreted sort %s" % (nm, s))
                 return tb.uval(nm, s)
-            if nm in sig.funs and not sig.funs[nm][0] and sig.funs[nm][1] == s:
-                return tb.var(nm, s)
             raise SortError("unknown qualified identifier " + nm)
         raise SortError("bad as")
     if not is_sym(h):
